@@ -1886,6 +1886,10 @@ func c11Facts(repo string, w *strings.Builder) error {
 		return fmt.Errorf("c11: no declaration *%s.MapItem", x.pkg)
 	}
 	pg := c11PgsqlBranches(wk.funcs, wk.pkg)
+	gs, err := c11GenericShape(repo)
+	if err != nil {
+		return err
+	}
 
 	// output
 	fmt.Fprintf(w, "/- GENERATED by tools/extract/goext (mode c11) from cypher/models/cypher/{model,copy}.go and cypher/models/walk/walk_{cypher,pgsql}.go — do not edit. -/\n")
@@ -1935,6 +1939,10 @@ func c11Facts(repo string, w *strings.Builder) error {
 	fmt.Fprintf(w, "def appends : List (String × String) := %s\n", c11LeanPairs(apps))
 	fmt.Fprintf(w, "/-- walk_pgsql.go: per case type of newSQLWalkCursor the ordered fields it reads for branches (\"F?\" = guarded by a nil/Set test, \"F*\" = slice converted element-wise, \"F()\" = method call) -/\n")
 	fmt.Fprintf(w, "def pgsqlBranches : List (String × List String) := [%s]\n", strings.Join(pg, ", "))
+	fmt.Fprintf(w, "/-- walk.Generic: per callback call site (source order) whether the error / done checks follow it, and for every Exit site whether\n    the consume flag is read-and-cleared (`visitor.WasConsumed()`) after it and before the cursor is popped -/\n")
+	fmt.Fprintf(w, "def genericFacts : List (String × Bool) := %s\n", strings.ReplaceAll(strings.ReplaceAll(c11LeanPairs(gs.facts), "\"true\"", "true"), "\"false\"", "false"))
+	fmt.Fprintf(w, "/-- walk.Generic: number of Enter / Visit / Exit call sites -/\n")
+	fmt.Fprintf(w, "def genericSites : Nat × Nat × Nat := (%d, %d, %d)\n", gs.enters, gs.visits, gs.exits)
 	fmt.Fprintf(w, "/-- extractor notes: anything it could not classify (must be empty for the checks to pass) -/\n")
 	fmt.Fprintf(w, "def unrecognised : List String := %s\n", leanStrList(x.notes))
 	fmt.Fprintf(w, "end Dawgs.Generated.C11\n")
